@@ -67,6 +67,11 @@ inductive Piece where
   | gz (b : Body)
   deriving Repr, DecidableEq
 
+/-- bytes a piece contributes to a declared Content-Length as the model counts them -/
+def Piece.rawLen : Piece → Nat
+  | .raw c => c.1
+  | .gz _ => 0
+
 structure Base where
   head      : Bool                       -- request method is HEAD
   hdr       : Hdr := []                  -- live header map
@@ -77,6 +82,8 @@ structure Base where
   pieces    : List Piece := []           -- body as sent
   interim   : List Nat := []             -- 1xx responses sent
   gzOpaque  : Nat := 0                   -- gzip members written (their byte length is not modelled)
+  interimSnap : List Hdr := []           -- header map sent with each 1xx response
+  flushes   : List Nat := []             -- number of body pieces on the wire at each Flush
   deriving Repr, DecidableEq
 
 def bodyAllowed (status : Nat) : Bool := !(status < 200 || status = 204 || status = 304)
@@ -93,7 +100,7 @@ def Base.step (b : Base) : Op → Base
   | .delH k => { b with hdr := b.hdr.del k }
   | .wh c =>
     if b.status.isSome then b
-    else if c ≥ 100 ∧ c < 200 then { b with interim := b.interim ++ [c] }
+    else if c ≥ 100 ∧ c < 200 then { b with interim := b.interim ++ [c], interimSnap := b.interimSnap ++ [b.hdr] }
     else b.commit c
   | .w c =>
     let b := b.commit 200
@@ -108,7 +115,7 @@ def Base.step (b : Base) : Op → Base
     let b := b.commit 200
     if !bodyAllowed (b.status.getD 200) then b
     else { b with gzOpaque := b.gzOpaque + 1, pieces := if b.head then b.pieces else b.pieces ++ [.gz body] }
-  | .fl => b.commit 200
+  | .fl => let b := b.commit 200; { b with flushes := b.flushes ++ [b.pieces.length] }
 
 def Base.run (b : Base) (ops : List Op) : Base := ops.foldl Base.step b
 
@@ -132,7 +139,7 @@ def Base.view (b : Base) : View :=
   { status := st, hdr := hdr, pieces := b.pieces,
     short := match b.declared with
       | some d => bodyAllowed st && !b.head && b.gzOpaque = 0 &&
-                  decide ((b.pieces.foldl (fun a p => a + (match p with | .raw c => c.1 | .gz _ => 0)) 0) < d)
+                  decide ((b.pieces.foldl (fun a p => a + p.rawLen) 0) < d)
       | none => false }
 
 /-! ### size_limit's response writer (after the repair) -/
